@@ -54,7 +54,16 @@ func (c *Ctx) EvalModel(rule string) *evalModel {
 	if E == nil {
 		return nil
 	}
+	// the methods of the annotation record are role anchors (the rules reason about calls to them), not helpers to see through
+	if an := c.P.Named("annotations"); an != nil {
+		for _, fn := range c.P.Funcs {
+			if fn.Parent() == nil && fn.Signature.Recv() != nil && c.isPkgNamed(fn.Signature.Recv().Type(), "annotations") {
+				c.roles["role:annotations-method:"+fn.Name()] = fn
+			}
+		}
+	}
 	m := &evalModel{E: E, Nest: core.WithAnon(E)}
+	defer func() { m.Nest = c.familyFuncs(E) }()
 	for _, p := range E.Params {
 		switch {
 		case isNamed(p.Type(), "reflect", "Value"):
